@@ -14,7 +14,7 @@ ASSUME = [
     "statement oracle: distance to the exact rotation by k*a at most 2*a*|c0| + 2e-4 for every step of one period (first-order splitting error), including closure at k = steps",
     "sinusoidal model: small amplitude (|c0| <= 2 sigma, synchronous phase ~ 0), extra allowance 2e-3*|c0|*(1+k*a) for the curvature of the sine",
     "centroids are the oracle's own double-precision first moments (API part) / the stored /BunchPosition and /EnergyAverage (program part, whose consistency with the grid is C10's subject)",
-    "start distributions are narrow Gaussians (API part: cut at 4 sigma) that stay inside the grid during the whole rotation; steps at which more than 2e-6 of the charge has nevertheless reached the border (numerical diffusion of low-order schemes) are judged by the rotation bound only",
+    "start distributions are narrow Gaussians (API part: cut at 4 sigma) that stay inside the grid during the whole rotation; steps at which more than 2e-6 of the charge has nevertheless reached the border (numerical diffusion of low-order schemes) are not judged (the property is about distributions that stay inside the grid) and counted",
 ]
 
 
@@ -111,7 +111,8 @@ def run_case(args):
         tol2 = 2 * a * r0 + 2e-4 + extra
         if abs(pop[rec] / pop[0] - 1) < 2e-6:
             worst1 = max(worst1, e1 / tol1)
-        worst2 = max(worst2, e2 / tol2)
+        if abs(pop[rec] / pop[0] - 1) < 2e-6:
+            worst2 = max(worst2, e2 / tol2)
         lossless = abs(pop[rec] / pop[0] - 1) < 2e-6
         if not lossless:
             out['lossy'] = out.get('lossy', 0) + 1
@@ -119,7 +120,7 @@ def run_case(args):
             viol.append(("C03:prog:track:" + ("sinus" if sinus else "linear"), "recorded centre of charge leaves the exact kick-drift orbit",
                          dict(step=int(k), q=q[rec], p=p[rec], want_q=mq, want_p=mp, tol=tol1)))
             break
-        if e2 > tol2:
+        if lossless and e2 > tol2:
             viol.append(("C03:prog:rotation:" + ("sinus" if sinus else "linear"), "recorded centre of charge deviates from the rotation by k*2pi/steps by more than the splitting error",
                          dict(step=int(k), q=q[rec], p=p[rec], bound=tol2, err=e2)))
             break
